@@ -233,6 +233,9 @@ SHAPES = {
     "samecol": (["{I}x = (1 +", "{I}2){T}"], ["", " + 3"]),
     "tstr2": (['{I}x = foo(\'\'\'', "text", "\'\'\', 1){T}"], ["", ".bar"]),
     "single": (["{I}x = 1{T}"], ["", "  # c"]),
+    # a decorated definition: the statement starts at its first decorator (the parser's lineno is the def line)
+    "deco": (["{I}@dec(1){T}", "{I}def x():", "{I}    return 1"], ["", "  # c"]),
+    "deco2": (["{I}@dec", "{I}@other(", "{I}    2)", "{I}class x:{T}", "{I}    y = 1"], ["", "  # c"]),
 }
 
 
@@ -273,8 +276,11 @@ def h16_range(ind: int, tsel: int, before: int, after: bool) -> bool:
     for node in ast.walk(tree):
         if isinstance(node, ast.Assign) and isinstance(node.targets[0], ast.Name) and node.targets[0].id == "x":
             target = node
+        if isinstance(node, (ast.FunctionDef, ast.ClassDef)) and node.name == "x":
+            target = node
     got = analysis_lib.get_line_range_for_node(target, [l + "\n" for l in lines])
-    want = list(range(target.lineno, target.end_lineno + 1))
+    first = min([target.lineno] + [d.lineno for d in getattr(target, "decorator_list", [])])
+    want = list(range(first, target.end_lineno + 1))
     return fin(got == want)
 
 
